@@ -26,8 +26,8 @@ def req(*exts):
 SLICES = {}
 
 
-def add(name, vocab, prelude=(), quick=5, thorough=7, devs=None):
-    SLICES[name] = {"name": name, "vocab": list(vocab) + PUNCT, "prelude": list(prelude),
+def add(name, vocab, prelude=(), quick=5, thorough=7, devs=None, punct=None):
+    SLICES[name] = {"name": name, "vocab": list(vocab) + (PUNCT if punct is None else punct), "prelude": list(prelude),
                     "quick": quick, "thorough": thorough}
 
 
@@ -64,6 +64,8 @@ add("gating",
     + strs("fileinto", "reject", "envelope", "body", "vacation", "vacation-seconds", "variables",
            "date", "imap4flags", "copy", "mailbox", "relational", "regex", "nonesuch", "gt"),
     quick=5, thorough=6)
+add("nesting", ids("if", "not", "anyof", "true", "keep", "else"),
+    punct=[("lp", ""), ("rp", ""), ("lc", ""), ("rc", ""), ("semi", ""), ("comma", "")], quick=9, thorough=12)
 add("lists",
     ids("require", "if", "exists", "header", "redirect", "stop")
     + strs("a", "b", "@innerq") + [("ml", "m")] + tags(":is"),
